@@ -1,10 +1,12 @@
 import inspect
+from copy import copy
 from typing import Any, Dict, Optional, Type, Union, cast
 
 from django.template import Context, Template
 
 from django_components import Component, ComponentRegistry, NotRegistered, types
 from django_components.component_registry import all_registries
+from django_components.perfutil.component import component_context_cache
 
 
 class DynamicComponent(Component):
@@ -127,13 +129,24 @@ class DynamicComponent(Component):
         args = context["args"]
         kwargs = context["kwargs"]
 
+        # NOTE: This hook runs only when this component is actually rendered, which is deferred. By then
+        # the Context objects that this component was called with may have changed (e.g. the enclosing
+        # `{% for %}` loop has moved on or finished). So we use the snapshots that were made at the time
+        # when this component was called:
+        # - `context` - Same as the Context this component was called with, plus the two layers added by
+        #   this component (the data from `get_context_data()` and the internal keys), which we leave out.
+        # - `outer_context` - The Context at the place of the `{% component %}` tag, used for the slot fills.
+        inner_context = copy(context)
+        inner_context.dicts = context.dicts[:-2]
+        outer_context = component_context_cache[self.id].outer_context
+
         comp = comp_class(
             registered_name=self.registered_name,
-            outer_context=self.outer_context,
+            outer_context=outer_context if outer_context is not None else self.outer_context,
             registry=self.registry,
         )
         output = comp.render(
-            context=self.input.context,
+            context=inner_context,
             args=args,
             kwargs=kwargs,
             slots=self.input.slots,
